@@ -336,6 +336,15 @@ class Node:
                 "set_data() for clones requires `with_clones` decision"
             )
 
+        if new_data_id is not None:
+            # Check first, so a refused call leaves the tree untouched
+            for n in cur_nodes if (has_clones and with_clones) else [self]:
+                for s in n._parent._children:  # type: ignore
+                    if s is not n and s._data_id == new_data_id:
+                        raise UniqueConstraintError(
+                            f"Node.data already exists in parent: {s}"
+                        )
+
         if new_data_id:
             # data_id (and possibly data) changes: we have to update the map
             if has_clones:
